@@ -487,6 +487,8 @@ structure DAll (id : Id) (f : Nat) : Prop where
     disposeNode f r x = .ok r' → Out P id r r'
   dchildren : ∀ (P : Id → Prop) r x r', RInvP P r → KInv r → Det r id →
     disposeChildren f r x = .ok r' → Out P id r r'
+  rest : ∀ (P : Id → Prop) r x r', RInvP P r → KInv r → Det r id →
+    disposeRest f r x = .ok r' → Out P id r r'
   cleanups : ∀ (P : Id → Prop) r cls r', RInvP P r → KInv r → Det r id → (∀ cl ∈ cls, EnvK r cl.env) →
     runCleanups f r cls = .ok r' → Out P id r r'
   dlist : ∀ (P : Id → Prop) r cs r', RInvP P r → KInv r → Det r id →
@@ -495,7 +497,7 @@ structure DAll (id : Id) (f : Nat) : Prop where
 theorem dAll_zero (id : Id) : DAll id 0 := by
   constructor <;> intros <;> simp_all [execBody, execInner, execStmt, runClosure, createSelector,
     runNodeUpdate, propagateLoop, propagateNodeUpdates, propagateUpdates, disposeNode, disposeChildren,
-    runCleanups, disposeList]
+    disposeRest, runCleanups, disposeList]
 
 /-! ### A.6 the functions -/
 
@@ -582,13 +584,34 @@ theorem d_dnode {id : Id} {f : Nat} (ih : DAll id f) (P : Id → Prop) (r : Root
   split at hx
   · cases hx
   · rename_i r1 h1
-    simp only [Except.ok.injEq] at hx
-    subst hx
-    obtain ⟨i0, _⟩ := hI.unsubscribe x
-    have p0 := (EStep.unsubscribe (id := id) hI.nd hI.sym x).dpost hK hD
-    have o1 := ih.dchildren P (unsubscribe r x) x r1 i0 p0.k p0.d h1
-    have p2 := (EStep.removeNode (id := id) o1.i.nd o1.i.sym x).dpost o1.k o1.d
-    exact (p0.trans o1.toDPost).trans p2
+    split at hx
+    · cases hx
+    · rename_i r1' h1'
+      simp only [Except.ok.injEq] at hx
+      subst hx
+      obtain ⟨i0, _⟩ := hI.unsubscribe x
+      have p0 := (EStep.unsubscribe (id := id) hI.nd hI.sym x).dpost hK hD
+      have o1 := ih.dchildren P (unsubscribe r x) x r1 i0 p0.k p0.d h1
+      have o1' := ih.rest P r1 x r1' o1.i o1.k o1.d h1'
+      have p2 := (EStep.removeNode (id := id) o1'.i.nd o1'.i.sym x).dpost o1'.k o1'.d
+      exact ((p0.trans o1.toDPost).trans o1'.toDPost).trans p2
+
+theorem d_rest {id : Id} {f : Nat} (ih : DAll id f) (P : Id → Prop) (r : Root) (x : Id) (r' : Root)
+    (hI : RInvP P r) (hK : KInv r) (hD : Det r id) (hx : disposeRest (f + 1) r x = .ok r') :
+    DPost id r r' := by
+  simp only [disposeRest] at hx
+  split at hx
+  · simp only [Except.ok.injEq] at hx
+    subst hx; exact DPost.refl hK hD
+  · split at hx
+    · simp only [Except.ok.injEq] at hx
+      subst hx; exact DPost.refl hK hD
+    · split at hx
+      · cases hx
+      · rename_i r1 h1
+        have o1 := ih.dchildren P r x r1 hI hK hD h1
+        have o2 := ih.rest P r1 x r' o1.i o1.k o1.d hx
+        exact o1.toDPost.trans o2.toDPost
 
 theorem d_loop {id : Id} {f : Nat} (ih : DAll id f) (P : Id → Prop) (r : Root) (l : List Id) (r' : Root)
     (hI : RInvP P r) (hK : KInv r) (hD : Det r id) (hl : id ∈ l → SigLike r id)
@@ -1290,6 +1313,8 @@ theorem dAll (id : Id) : ∀ f, DAll id f
         Out.of (pa.dnode P r x r' hI hx).1 (d_dnode ih P r x r' hI hK hD hx)
       dchildren := fun P r x r' hI hK hD hx =>
         Out.of (pa.dchildren P r x r' hI hx) (d_dchildren ih P r x r' hI hK hD hx)
+      rest := fun P r x r' hI hK hD hx =>
+        Out.of (pa.rest P r x r' hI hx) (d_rest ih P r x r' hI hK hD hx)
       cleanups := fun P r cls r' hI hK hD hE hx =>
         Out.of (pa.cleanups P r cls r' hI (fun cl hc => (hE cl hc).envLt) hx)
           (d_cleanups ih P r cls r' hI hK hD hE hx)
@@ -1379,6 +1404,7 @@ structure TAll (f : Nat) : Prop where
   updates : ∀ r s r', propagateUpdates f r s = .ok r' → TExt r r'
   dnode : ∀ r x r', disposeNode f r x = .ok r' → TExt r r'
   dchildren : ∀ r x r', disposeChildren f r x = .ok r' → TExt r r'
+  rest : ∀ r x r', disposeRest f r x = .ok r' → TExt r r'
   cleanups : ∀ r cls r', runCleanups f r cls = .ok r' → ∃ evs, r'.trace = r.trace ++ evs ∧
     (cls.map fun cl => some cl.tag).Sublist (evs.map Event.cleanupTag)
   dlist : ∀ r cs r', disposeList f r cs = .ok r' → TExt r r'
@@ -1386,7 +1412,7 @@ structure TAll (f : Nat) : Prop where
 theorem tAll_zero : TAll 0 := by
   constructor <;> intros <;> simp_all [execBody, execInner, execStmt, runClosure, createSelector,
     runNodeUpdate, propagateLoop, propagateNodeUpdates, propagateUpdates, disposeNode, disposeChildren,
-    runCleanups, disposeList]
+    disposeRest, runCleanups, disposeList]
 
 theorem t_stmt {f : Nat} (ih : TAll f) (r : Root) (c : Ctx) (s : Stmt) (r' : Root) (c' : Ctx)
     (hx : execStmt (f + 1) r c s = .ok (r', c')) : TExt r r' := by
@@ -1689,7 +1715,7 @@ theorem tAll : ∀ f, TAll f
   | 0 => tAll_zero
   | f + 1 => by
     have ih := tAll f
-    refine ⟨?_, ?_, t_stmt ih, ?_, t_selector ih, t_update ih, ?_, ?_, ?_, ?_, ?_, t_cleanups ih, ?_⟩
+    refine ⟨?_, ?_, t_stmt ih, ?_, t_selector ih, t_update ih, ?_, ?_, ?_, ?_, ?_, ?_, t_cleanups ih, ?_⟩
     · -- body
       intro r c b r' c' hx
       cases b with
@@ -1758,10 +1784,13 @@ theorem tAll : ∀ f, TAll f
       split at hx
       · cases hx
       · rename_i r1 h1
-        simp only [Except.ok.injEq] at hx
-        subst hx
-        exact ((TExt.of_eq (unsubscribe_sameFrame r x).2.2.2.2.2.2.2).trans (ih.dchildren _ x r1 h1)).trans
-          (TExt.of_eq (removeNode_trace r1 x))
+        split at hx
+        · cases hx
+        · rename_i r1' h1'
+          simp only [Except.ok.injEq] at hx
+          subst hx
+          exact (((TExt.of_eq (unsubscribe_sameFrame r x).2.2.2.2.2.2.2).trans (ih.dchildren _ x r1 h1)).trans
+            (ih.rest r1 x r1' h1')).trans (TExt.of_eq (removeNode_trace r1' x))
     · -- dchildren
       intro r x r' hx
       simp only [disposeChildren] at hx
@@ -1783,6 +1812,19 @@ theorem tAll : ∀ f, TAll f
             have t3 : TExt r2 r3 := t3'
             exact (t2'.trans t3).trans
               (TExt.of_eq (SameFrame.modify ..).2.2.2.2.2.2.2)
+    · -- rest
+      intro r x r' hx
+      simp only [disposeRest] at hx
+      split at hx
+      · simp only [Except.ok.injEq] at hx
+        subst hx; exact TExt.refl _
+      · split at hx
+        · simp only [Except.ok.injEq] at hx
+          subst hx; exact TExt.refl _
+        · split at hx
+          · cases hx
+          · rename_i r1 h1
+            exact (ih.dchildren r x r1 h1).trans (ih.rest r1 x r' hx)
     · -- dlist
       intro r cs r' hx
       cases cs with
@@ -1810,6 +1852,9 @@ theorem dispose_noRunSince {P : Id → Prop} {fuel : Nat} {r r' : Root} {id : Id
     split at hx
     · cases hx
     · rename_i r1 h1
+      split at hx
+      · cases hx
+      rename_i r1' h1'
       simp only [Except.ok.injEq] at hx
       subst hx
       by_cases hlt : id < r.nodes.size
@@ -1818,8 +1863,9 @@ theorem dispose_noRunSince {P : Id → Prop} {fuel : Nat} {r r' : Root} {id : Id
         have hD0 : Det (unsubscribe r id) id :=
           ⟨by rw [e0.size]; exact hlt, (unsubscribe_spec hI.nd hI.sym id).2.1⟩
         have o1 := (dAll id f).dchildren P _ id r1 i0 (e0.kinv hK) hD0 h1
-        have p2 := (EStep.removeNode (id := id) o1.i.nd o1.i.sym id).dpost o1.k o1.d
-        exact ((NoRunSince.of_eq e0.trace).trans o1.t).trans p2.t
+        have o1' := (dAll id f).rest P r1 id r1' o1.i o1.k o1.d h1'
+        have p2 := (EStep.removeNode (id := id) o1'.i.nd o1'.i.sym id).dpost o1'.k o1'.d
+        exact (((NoRunSince.of_eq e0.trace).trans o1.t).trans o1'.t).trans p2.t
       · have hdead : r.get? id = none := Root.get?_eq_none_of_size_le (Nat.le_of_not_gt hlt)
         rw [unsubscribe_dead hdead] at h1
         cases f with
@@ -1827,6 +1873,8 @@ theorem dispose_noRunSince {P : Id → Prop} {fuel : Nat} {r r' : Root} {id : Id
         | succ f =>
           simp only [disposeChildren, hdead, Except.ok.injEq] at h1
           subst h1
+          rw [disposeRest_dead hdead] at h1'
+          cases h1'
           rw [removeNode_dead hdead]
           exact NoRunSince.refl _ _
 
@@ -1842,8 +1890,12 @@ theorem dispose_logs_cleanups {fuel : Nat} {r r' : Root} {id : Id} {n : Node} (h
     split at hx
     · cases hx
     · rename_i r1 h1
+      split at hx
+      · cases hx
+      rename_i r1' h1'
       simp only [Except.ok.injEq] at hx
       subst hx
+      obtain ⟨e4, t4⟩ : TExt r1 r1' := (tAll f).rest r1 id r1' h1'
       obtain ⟨g, hg, hfields⟩ := unsubscribe_get?_fields r id id
       rw [hn] at hg
       have hcl : (g n).cleanups = n.cleanups := (hfields n).2.2.2.2.1
@@ -1863,13 +1915,13 @@ theorem dispose_logs_cleanups {fuel : Nat} {r r' : Root} {id : Id} {n : Node} (h
             obtain ⟨e2, t2, s2⟩ := (tAll f).cleanups _ (g n).cleanups r2 h2
             have t3' := (tAll f).dlist _ (g n).children r3 h3
             obtain ⟨e3, t3⟩ : TExt r2 r3 := t3'
-            refine ⟨e2 ++ e3, ?_, ?_⟩
-            · rw [removeNode_trace, (SameFrame.modify ..).2.2.2.2.2.2.2, t3, t2]
+            refine ⟨e2 ++ e3 ++ e4, ?_, ?_⟩
+            · rw [removeNode_trace, t4, (SameFrame.modify ..).2.2.2.2.2.2.2, t3, t2]
               have : (Root.setNode (unsubscribe r id) id { g n with cleanups := [], children := [] }).trace
                   = r.trace := (SameFrame.setNode ..).2.2.2.2.2.2.2.trans htr0
               simp only [List.append_assoc]
               rw [← this]
-            · rw [← hcl, List.map_append]
+            · rw [← hcl, List.map_append, List.map_append, List.append_assoc]
               exact s2.trans (List.sublist_append_left _ _)
 
 /-! ### A.12 cleanup tags: every registered cleanup runs EXACTLY once
@@ -2130,13 +2182,14 @@ structure GAll (t : Nat) (f : Nat) : Prop where
   updates : ∀ r s r', propagateUpdates f r s = .ok r' → GPost t r r'
   dnode : ∀ r x r', disposeNode f r x = .ok r' → GPost t r r'
   dchildren : ∀ r x r', disposeChildren f r x = .ok r' → GPost t r r'
+  rest : ∀ r x r', disposeRest f r x = .ok r' → GPost t r r'
   cleanups : ∀ r cls r', runCleanups f r cls = .ok r' → GPostK t (clCount t cls) r r'
   dlist : ∀ r cs r', disposeList f r cs = .ok r' → GPost t r r'
 
 theorem gAll_zero (t : Nat) : GAll t 0 := by
   constructor <;> intros <;> simp_all [execBody, execInner, execStmt, runClosure, createSelector,
     runNodeUpdate, propagateLoop, propagateNodeUpdates, propagateUpdates, disposeNode, disposeChildren,
-    runCleanups, disposeList]
+    disposeRest, runCleanups, disposeList]
 
 theorem g_stmt {t f : Nat} (ih : GAll t f) (r : Root) (c : Ctx) (s : Stmt) (r' : Root) (c' : Ctx)
     (hx : execStmt (f + 1) r c s = .ok (r', c')) : GPost t r r' := by
@@ -2554,7 +2607,7 @@ theorem gAll (t : Nat) : ∀ f, GAll t f
   | 0 => gAll_zero t
   | f + 1 => by
     have ih := gAll t f
-    refine ⟨?_, ?_, g_stmt ih, ?_, g_selector ih, g_update ih, ?_, ?_, ?_, ?_, g_dchildren ih, g_cleanups ih, ?_⟩
+    refine ⟨?_, ?_, g_stmt ih, ?_, g_selector ih, g_update ih, ?_, ?_, ?_, ?_, g_dchildren ih, ?_, g_cleanups ih, ?_⟩
     · -- body
       intro r c b r' c' hx
       cases b with
@@ -2624,9 +2677,26 @@ theorem gAll (t : Nat) : ∀ f, GAll t f
       split at hx
       · cases hx
       · rename_i r1 h1
-        simp only [Except.ok.injEq] at hx
-        subst hx
-        exact ((CStep.unsubscribe r x).gpost.trans (ih.dchildren _ x r1 h1)).trans (CStep.removeNode r1 x).gpost
+        split at hx
+        · cases hx
+        · rename_i r1' h1'
+          simp only [Except.ok.injEq] at hx
+          subst hx
+          exact (((CStep.unsubscribe r x).gpost.trans (ih.dchildren _ x r1 h1)).trans (ih.rest r1 x r1' h1')).trans
+            (CStep.removeNode r1' x).gpost
+    · -- rest
+      intro r x r' hx
+      simp only [disposeRest] at hx
+      split at hx
+      · simp only [Except.ok.injEq] at hx
+        subst hx; exact GPost.refl _ _
+      · split at hx
+        · simp only [Except.ok.injEq] at hx
+          subst hx; exact GPost.refl _ _
+        · split at hx
+          · cases hx
+          · rename_i r1 h1
+            exact (ih.dchildren r x r1 h1).trans (ih.rest r1 x r' hx)
     · -- dlist
       intro r cs r' hx
       cases cs with
@@ -2678,8 +2748,12 @@ theorem dispose_tagCount {fuel : Nat} {r r' : Root} {id : Id} {n : Node} (hT : T
     split at hx
     · cases hx
     · rename_i r1 h1
+      split at hx
+      · cases hx
+      rename_i r1' h1'
       simp only [Except.ok.injEq] at hx
       subst hx
+      have prest := (gAll cl.tag f).rest r1 id r1' h1'
       have c0 := CStep.unsubscribe r id
       have hT0 : TagInv (unsubscribe r id) := (c0.gpost (t := cl.tag)).inv hT
       have hn0 : ∃ n0, (unsubscribe r id).get? id = some n0 ∧ cl ∈ n0.cleanups := by
@@ -2717,9 +2791,9 @@ theorem dispose_tagCount {fuel : Nat} {r r' : Root} {id : Id} {n : Node} (hT : T
             have p3 := (gAll cl.tag f).dlist _ n0.children r3 h3
             have p4 : GPost cl.tag r3 (r3.modify id fun n => { n with context := [] }) :=
               (CStep.modify r3 id (fun n => { n with context := [] }) (fun _ => rfl)).gpost
-            have p5 : GPost cl.tag _ (removeNode (r3.modify id fun n => { n with context := [] }) id) :=
+            have p5 : GPost cl.tag r1' (removeNode r1' id) :=
               (CStep.removeNode _ id).gpost
-            have all := GPostK.trans (GPostK.trans (GPostK.trans (GPostK.trans (GPostK.trans pb p2) pc) p3) p4) p5
+            have all := GPostK.trans (GPostK.trans (GPostK.trans (GPostK.trans (GPostK.trans (GPostK.trans pb p2) pc) p3) p4) prest) p5
             obtain ⟨_, evs, e, hc⟩ := all.gone hgone
             refine ⟨evs, by rw [e, ca.trace, c0.trace], ?_⟩
             rw [hc]
